@@ -36,6 +36,8 @@ def s_run(rng, budget_words=2600):
         j["gens"] = rng.choice([2, 3])  # thread churn: workers come in successive generations
     if rng.random() < 0.25:
         j["clockq"] = rng.choice(CLOCKQ)  # every clock read returns a multiple of the quantum
+    if rng.random() < 0.3:
+        j["release"] = 1  # interpret the release profile: no debug assertions, wrapping overflow
     # keep the run inside the per-run budget: first shrink the biggest size, then D
     while words_of(j) > budget_words:
         m = max(j["sizes"])
@@ -74,6 +76,8 @@ def m_run(rng, reps):
              preempt=rng.choice(PREEMPT), **{"yield": rng.randint(0, 1)})
     if rng.random() < 0.25:
         j["ops"] = rng.getrandbits(31) | 1
+    if rng.random() < 0.3:
+        j["release"] = 1
     return j
 
 
@@ -91,7 +95,16 @@ def g_run(rng):
         j["extra_flags"] = ["-Zmiri-address-reuse-rate=1.0", "-Zmiri-address-reuse-cross-thread-rate=1.0"]
     if rng.random() < 0.5:
         j["clockq"] = rng.choice(CLOCKQ)
+    if rng.random() < 0.3:
+        j["release"] = 1
     return j
+
+
+def t_run(rng, k, gens):
+    """Many threads over the life of the process: `gens` generations of `k` threads (more than 255 in
+    total for the larger shapes), two multi-word draws each."""
+    return _job("T", rng, K=k, gens=gens, D=2, sizes=[rng.choice([7, 8])], types=rng.choice(["lut", "static"]), main=0,
+                warm=rng.randint(0, 1), preempt=rng.choice(PREEMPT), release=rng.randint(0, 1), **{"yield": rng.randint(0, 1)})
 
 
 def c_run(rng):
@@ -107,7 +120,7 @@ def o_run(rng, op):
     sizes = [rng.choice([2, 3, 4, 5, 6, 0, 1, 7, 3, 4, 5, 6])]
     ops = 2 * (op + NOPS * (1 + rng.randrange(63)))  # even seed = fixed mode: op = (ops/2) % NOPS, arg = (ops/2) / NOPS
     k, m = rng.choice([(1, 0), (0, 1), (1, 1)])
-    return _job("O", rng, K=k, main=m, D=256, sizes=sizes, types="both", ops=ops, warm=rng.randint(0, 1) if k else 0,
+    return _job("O", rng, K=k, main=m, D=256, sizes=sizes, types="both", ops=ops, warm=rng.randint(0, 1) if k else 0, release=1 if rng.random() < 0.3 else 0,
                 preempt=rng.choice(PREEMPT), **{"yield": rng.randint(0, 1)})
 
 
@@ -122,7 +135,7 @@ def make_plan(seed, tier):
             # thread itself or a lone spawned thread, seed-chosen
             jobs.append(_job("L1", rng, K=1, main=0, warm=1, D=256, sizes=[n], types=typ, preempt=rng.choice(PREEMPT)))
             k, m = rng.choice([(0, 1), (1, 0)])
-            jobs.append(_job("L1", rng, K=k, main=m, warm=0, D=256, sizes=[n], types=typ, preempt=rng.choice(PREEMPT)))
+            jobs.append(_job("L1", rng, K=k, main=m, warm=0, D=256, sizes=[n], types=typ, preempt=rng.choice(PREEMPT), release=1))
     combos = [(typ, n) for typ in ("lut", "static") for n in range(13)]
     if tier == "quick":
         # L16 — the literal 16-thread clause on a seed-chosen 4 of the 14 single-word combinations
@@ -147,6 +160,8 @@ def make_plan(seed, tier):
         # C — coarse clock
         for _ in range(6):
             jobs.append(c_run(rng))
+        # T — more than 255 threads over the life of the process
+        jobs.append(t_run(rng, 16, 17))
         n_s = 64
     else:
         for typ, n in combos:
@@ -168,6 +183,8 @@ def make_plan(seed, tier):
             jobs.append(g_run(rng))
         for _ in range(48):
             jobs.append(c_run(rng))
+        for k, g in ((16, 17), (16, 33), (8, 40), (4, 70), (2, 130), (1, 260)):
+            jobs.append(t_run(rng, k, g))
         # W — wide and long: 16k single-word draws under contention (several 64 KiB-of-output boundaries of any
         # process-wide generator state fall inside the run)
         for i in range(8):
